@@ -1847,12 +1847,13 @@ impl<'a> G<'a> {
     }
 
     fn redir(&mut self, depth: u32) {
-        let i = self.w(&[8, 2, 1, 1, 1]);
+        // (the last four: descriptor numbers at and beyond the limits of the descriptor type)
+        let i = self.w(&[24, 6, 3, 3, 3, 1, 1, 1, 1]);
         if i > 0 && !self.out.ends_with([' ', '\t', '\n']) && self.w(&[15, 1]) == 0 {
             // keep the descriptor number from being glued to the preceding word or keyword
             self.s(" ");
         }
-        self.s(["", "2", "10", "0", "007"][i]);
+        self.s(["", "2", "10", "0", "007", "2147483647", "2147483648", "4294967295", "99999999999999999999"][i]);
         match self.w(&[3, 3, 2, 1, 1, 2, 2, 1, 1, 2, 1]) {
             k @ 0..=4 => {
                 self.s(["<", ">", ">>", ">|", "<>"][k]);
@@ -2323,7 +2324,7 @@ fn mutate(base: &str, ops: &[(u8, u16, u16)]) -> String {
 const SOUP_TOKENS: &[&str] = &[
     "if", "then", "else", "elif", "fi", "do", "done", "case", "esac", "while", "until", "for", "in", "{", "}", "(", ")", "!", ";;", ";&", ";|", "&", "&&", "|",
     "||", ";", "<", ">", "<<", "<<-", ">>", "<&", ">&", "<>", ">|", "$(", "`", "$((", "${", "\"", "'", "\\", "\n", "#", "=", "~", "*", "?", "[", "]", "a", "x1", "foo",
-    "0", "2", "10", "$x", "))", "$'", "<<<", ">>|", "E",
+    "0", "2", "10", "$x", "))", "$'", "<<<", ">>|", "E", "2147483647", "2147483648", "4294967296",
 ];
 
 fn arb_choices(max: usize) -> impl Strategy<Value = Vec<u16>> {
